@@ -17,11 +17,11 @@ Section C06.
   Variable T : Type.
   Variable ltb : T -> T -> bool.
   Variable zero : T.
-  Variable round7 : T -> T.
+  Variable roundp : nat -> T -> T.
   Variable smul : bool -> T -> T.
-  Notation job_evaluate := (job_evaluate ltb zero round7 smul).
-  Notation evaluate_serial := (evaluate_serial ltb zero round7 smul).
-  Notation reach := (reach T ltb zero round7 smul).
+  Notation job_evaluate := (job_evaluate ltb zero roundp smul).
+  Notation evaluate_serial := (evaluate_serial ltb zero roundp smul).
+  Notation reach := (reach T ltb zero roundp smul).
 
   (* at most five attempts per design, whatever its state: one Job.evaluate adds at most five
      objective calls, all for that design, and the failed list grows by the failed ones *)
@@ -29,13 +29,13 @@ Section C06.
     job_evaluate e st id = (st', r) ->
     exists cs, s_calls st' = s_calls st ++ cs /\ length cs <= 5 /\ Forall (fun c => c_id c = id) cs /\
                s_failed st' = s_failed st ++ failed_of e cs.
-  Proof. exact (job_attempts_le_5 T ltb zero round7 smul). Qed.
+  Proof. exact (job_attempts_le_5 T ltb zero roundp smul). Qed.
 
   (* ... and over a whole batch, for every fault pattern and whether or not the batch raises *)
   Theorem C06_batch_attempts_le_5 : forall (e : env T) batch st st' r cs,
     evaluate_serial e st batch = (st', r) -> s_calls st' = s_calls st ++ cs ->
     forall id, length (calls_of id cs) <= 5.
-  Proof. exact (serial_attempts_le_5 T ltb zero round7 smul). Qed.
+  Proof. exact (serial_attempts_le_5 T ltb zero roundp smul). Qed.
 
   (* the complete protocol of one job on a design that is not yet evaluated: between one and five
      calls, the k-th of which is job_call k; the failed list grows by exactly the transiently failed
@@ -66,7 +66,7 @@ Section C06.
                  istate i' = InProgress /\ ivec i' = c_vec c /\ icosts i' = icosts i /\
                  failed_of e cs = map (fun c => mk_failed (c_vec c)) pre /\ s_store st' = s_store st
       end.
-  Proof. exact (job_protocol T ltb zero round7 smul). Qed.
+  Proof. exact (job_protocol T ltb zero roundp smul). Qed.
 
   (* over every history of evaluate / evaluate_scalar / sweep calls: problem.failed grows by exactly
      the vectors of the transiently failed attempts, in call order, each a FAILED design without costs *)
@@ -76,7 +76,7 @@ Section C06.
     s_failed st = s_failed st0 ++ map (fun c => mk_failed (c_vec c)) (filter (tr_b e) cs) /\
     Forall (fun f => istate f = Failed /\ icosts f = [] /\ isigned f = None)
            (map (fun c => mk_failed (c_vec c)) (filter (tr_b e) cs)).
-  Proof. exact (failed_log_exact T ltb zero round7 smul). Qed.
+  Proof. exact (failed_log_exact T ltb zero roundp smul). Qed.
 
   (* after re-rolls the stored costs are the objective's result for the stored vector: the vector of
      the successful call, which is the original one or the replacement sampled after the last failure *)
@@ -88,7 +88,7 @@ Section C06.
       nth_error (s_heap st') id = Some i' /\ ivec i' = c_vec c /\ icosts i' = costs /\ istate i' = Evaluated /\
       s_failed st' = s_failed st ++ map (fun c => mk_failed (c_vec c)) pre /\
       s_store st' = s_store st ++ [(id, i')].
-  Proof. exact (stored_pair_after_reroll T ltb zero round7 smul). Qed.
+  Proof. exact (stored_pair_after_reroll T ltb zero roundp smul). Qed.
 
   (* ... in every reachable state of every history, under every fault schedule (shared with C05) *)
   Theorem C06_stored_costs_belong_to_stored_vector : forall (e : env T) st0 st cs id i,
@@ -96,7 +96,7 @@ Section C06.
     (forall i0, nth_error (s_heap st0) id = Some i0 -> istate i0 <> Evaluated) ->
     exists c, In c cs /\ c_id c = id /\ c_vec c = ivec i /\ e_obj e c = Ok (icosts i) /\
               (forall c', In c' cs -> c_id c' = id -> ok_b e c' = true -> c' = c).
-  Proof. exact (costs_belong_to_vector T ltb zero round7 smul). Qed.
+  Proof. exact (costs_belong_to_vector T ltb zero roundp smul). Qed.
 
   (* whatever every replacement satisfies (e.g. lying inside the bounds: gen_vector, C08) and the
      original vector satisfies, the stored vector satisfies *)
@@ -104,7 +104,7 @@ Section C06.
     nth_error (s_heap st) id = Some i -> istate i <> Evaluated -> job_evaluate e st id = (st', Done) ->
     P (ivec i) -> (forall c, P (e_reroll e c)) ->
     exists i', nth_error (s_heap st') id = Some i' /\ P (ivec i').
-  Proof. exact (stored_vector_invariant T ltb zero round7 smul). Qed.
+  Proof. exact (stored_vector_invariant T ltb zero roundp smul). Qed.
 
   (* every fault pattern: the first attempt (k-th, k < 5) that does not fail transiently decides *)
   Theorem C06_result_decided : forall (e : env T) st id i st' r k,
@@ -115,7 +115,7 @@ Section C06.
     exists cs, s_calls st' = s_calls st ++ cs /\ length cs = S k /\
       r = match e_obj e (job_call e id (length (s_calls st)) 0 (ivec i) k) with
           | Ok _ => Done | Fatal kd => RaisedFatal kd | Transient => Raised5 end.
-  Proof. exact (job_decided T ltb zero round7 smul). Qed.
+  Proof. exact (job_decided T ltb zero roundp smul). Qed.
 
   (* five consecutive transient failures: RuntimeError; five calls, five failed copies, no sync;
      the design is left EMPTY with its old costs and the fifth replacement vector *)
@@ -128,7 +128,7 @@ Section C06.
       s_store st' = s_store st /\
       nth_error (s_heap st') id = Some i' /\ istate i' = Empty /\ icosts i' = icosts i /\
       ivec i' = e_reroll e (job_call e id (length (s_calls st)) 0 (ivec i) 4).
-  Proof. exact (five_failures_state T ltb zero round7 smul). Qed.
+  Proof. exact (five_failures_state T ltb zero roundp smul). Qed.
 
   (* four failures followed by a success do not raise *)
   Theorem C06_four_failures_do_not_raise : forall (e : env T) st id i st' r costs,
@@ -136,7 +136,7 @@ Section C06.
     (forall j, j < 4 -> e_obj e (job_call e id (length (s_calls st)) 0 (ivec i) j) = Transient) ->
     e_obj e (job_call e id (length (s_calls st)) 0 (ivec i) 4) = Ok costs ->
     r = Done /\ exists cs, s_calls st' = s_calls st ++ cs /\ length cs = 5.
-  Proof. exact (four_failures_do_not_raise T ltb zero round7 smul). Qed.
+  Proof. exact (four_failures_do_not_raise T ltb zero roundp smul). Qed.
 
   (* any other exception leaves at once: that call is the last one, the design is IN_PROGRESS (not
      evaluated), nothing is synced, and the failed list holds only the k earlier transient failures *)
@@ -151,7 +151,7 @@ Section C06.
       s_failed st' = s_failed st ++ map (fun c => mk_failed (c_vec c)) pre /\
       s_store st' = s_store st /\
       nth_error (s_heap st') id = Some i' /\ istate i' = InProgress /\ ivec i' = c_vec c /\ icosts i' = icosts i.
-  Proof. exact (fatal_propagates T ltb zero round7 smul). Qed.
+  Proof. exact (fatal_propagates T ltb zero roundp smul). Qed.
 
   (* batch level: an exception leaves Algorithm.evaluate at once - the designs before the raising one
      were processed normally, the final state is the one the raising job produced, the rest of the
@@ -160,7 +160,7 @@ Section C06.
     evaluate_serial e st batch = (st', r) -> r <> Done ->
     exists pre h post st1 ih, batch = pre ++ h :: post /\ evaluate_serial e st pre = (st1, Done) /\
       nth_error (s_heap st1) h = Some ih /\ istate ih = Empty /\ job_evaluate e st1 h = (st', r).
-  Proof. exact (serial_raise_stops T ltb zero round7 smul). Qed.
+  Proof. exact (serial_raise_stops T ltb zero roundp smul). Qed.
 End C06.
 
 Print Assumptions C06_attempts_le_5.
@@ -192,7 +192,7 @@ Definition exZ_env (fail : list nat) : env Z :=
 Definition exZ_st0 : state Z :=
   {| s_heap := [fresh [7]; fresh [8]; fresh [9]]; s_pop := []; s_failed := []; s_store := []; s_calls := [] |}.
 
-Definition exZ_serial fail := evaluate_serial Z.ltb 0 (fun x => x) (fun b x => if b then - x else x) (exZ_env fail) exZ_st0.
+Definition exZ_serial fail := evaluate_serial Z.ltb 0 (fun _ x => x) (fun b x => if b then - x else x) (exZ_env fail) exZ_st0.
 
 (* exactly four failures of the middle design: no exception, five attempts, costs belong to the last
    replacement vector [4]; exactly five failures: RuntimeError, the design is EMPTY with vector [5], the
@@ -229,7 +229,7 @@ Example C06_ex_fatal :
   let e := {| e_signs := [false];
               e_obj := fun c => match c_no c with 0%nat => Transient | 1%nat => Fatal 3 | _ => Ok [1] end;
               e_cons := fun _ => []; e_reroll := fun _ => [42] |} in
-  let '(st, r) := evaluate_serial Z.ltb 0 (fun x => x) (fun b x => if b then - x else x) e exZ_st0 [0; 1; 2]%nat in
+  let '(st, r) := evaluate_serial Z.ltb 0 (fun _ x => x) (fun b x => if b then - x else x) e exZ_st0 [0; 1; 2]%nat in
   r = RaisedFatal 3 /\ map (@ivec Z) (s_failed st) = [[7]] /\ length (s_calls st) = 2%nat /\
   map (fun i => (ivec i, istate i)) (s_heap st) = [([42], InProgress); ([8], Empty); ([9], Empty)] /\ s_store st = [].
 Proof. vm_compute. repeat split; reflexivity. Qed.
